@@ -211,6 +211,8 @@ async fn rx_srv(w: Shared, trl: bool, l: u64, p: Option<Option<u64>>, section: V
         Some(Err(e)) => format!("err:{}", conn_err(&e)),
         None => "hang".into(),
     };
+    // let the connection driver act on what the stream reported (a connection error is closed there)
+    let _ = poll_once(conn.accept()).await;
     std::mem::forget(conn);
     res
 }
@@ -263,6 +265,7 @@ async fn rx_cli(w: Shared, trl: bool, l: u64, p: Option<Option<u64>>, section: V
         Some(Err(e)) => format!("err:{}", stream_err(&e)),
         None => "hang".into(),
     };
+    let _ = poll_once(poll_fn(|cx| conn.poll_close(cx))).await;
     std::mem::forget(s);
     std::mem::forget(conn);
     std::mem::forget(sr);
